@@ -136,6 +136,8 @@ def main(argv=None):
     mod = importlib.import_module(modname)
     meta = mod.META
     tier = 'thorough' if args.tier.startswith('t') else 'quick'
+    os.environ.setdefault('VERIF_CASE_SECONDS',
+                          '2400' if tier == 'thorough' else '150')
     cases = mod.cases(tier, seed)
     if args.only:
         cases = [c for c in cases if args.only in c['name']]
